@@ -443,9 +443,52 @@ def unit_split(ctx):
             return "ok " + show_real(c1) + " " + show_real(c2)
         return guarded(f)
 
-    diff_unit(ctx, "annot_split", cases, lines, impl_fn, spec_split,
-              lambda c, o: o.startswith("ok") and c[0]["s"] < c[1] < c[0]["e"] and bool(c[0]["sub"] or c[0]["sup"]),
-              lambda c: {"chunk": c[0], "t": c[1], "early": c[2]}, lambda c, o: kind_of(o))
+    mout = diff_unit(ctx, "annot_split", cases, lines, impl_fn, spec_split,
+                     lambda c, o: o.startswith("ok") and c[0]["s"] < c[1] < c[0]["e"] and bool(c[0]["sub"] or c[0]["sup"]),
+                     lambda c: {"chunk": c[0], "t": c[1], "early": c[2]}, lambda c, o: kind_of(o))
+    # extraction cross-check: a sample re-evaluated inside Coq by vm_compute
+    idxs = sorted(ctx.rng.sample(range(len(cases)), min(120, len(cases))))
+    eqs = []
+    for i in idxs:
+        c, t, early = cases[i]
+        eqs.append("c14_split_view (%d) (%d) %s (%d) (%d) %s (%d) %s %s (%d) %s = %s" % (
+            c["s"], c["e"], coq_rows(c["rows"]), c["dt"], c["kind"], coq_oz(c["run"]), c["tgt"],
+            coq_oannot(c["sub"]), coq_oannot(c["sup"]), t, "true" if early else "false", coq_split_out(mout[i])))
+    n, fails = lib.coq_crosscheck("C14", "From SV Require Import Model.Rows Model.Annot Model.C14Run.", eqs)
+    ctx.coverage.setdefault("kernel_crosscheck", {})["annot_split"] = {"equations": n, "failed_files": len(fails)}
+    if fails:
+        ctx.violation("annot_split", "extracted model and Coq vm_compute disagree: " + fails[0][-400:],
+                      {"input": "corr:C14/annot_split/extraction-crosscheck", "log": fails[0]}, no_failing_input=True)
+
+
+def coq_rows(rows):
+    return "[" + "; ".join("mkrow (%d) (%d) (%d) (%d)" % tuple(r) for r in rows) + "]"
+
+
+def coq_oz(r):
+    return "None" if r is None else "(Some (%d))" % r
+
+
+def coq_annot(a):
+    return "[" + "; ".join("mkspan %s (%d) (%d)" % (coq_oz(k), s, e) for k, s, e in a) + "]"
+
+
+def coq_oannot(a):
+    return "None" if a is None else "(Some %s)" % coq_annot(a)
+
+
+def coq_view(d):
+    return "((%d), (%d), %s, [%s], %s, %s)" % (d["s"], d["e"], coq_oz(d["run"]), "; ".join("(%d)" % i for i in d["ids"]),
+                                               coq_oannot(d["sub"]), coq_annot(d["sup"]))
+
+
+def coq_split_out(s):
+    if s.startswith("ctor"):
+        return "inl (%s)" % s.split()[1]
+    if s.startswith("err"):
+        return "inr (inl (%s))" % s.split()[1]
+    c1, c2 = parse_shows(s[3:])
+    return "inr (inr (%s, %s))" % (coq_view(c1), coq_view(c2))
 
 
 # ------------------------------------------------------------------------------------------
